@@ -140,9 +140,102 @@ def fam_client(w: World) -> None:
             break
 
 
-FAMILIES = {'twin.server': fam_server, 'twin.client': fam_client}
+def fam_server_history(w: World) -> None:
+    """Long-lived dispatchers: the same sequence of request texts on one Dispatcher and two AsyncDispatchers."""
+    ch = w.ch
+    n_req = 2 + ch.draw(5, 'history.n')
+    infos = []
+    for r in range(n_req):
+        info = S.gen_document(ch, max_len=3, allow_junk=True)
+        info['text'] = info['text'].replace('"t', f'"h{r}_t')
+        infos.append(info)
+    cfg = S.draw_config(ch, 3, middlewares=True, handlers=True, force_async=False)
+    w.scenario = {'cfg': cfg, 'texts': [i['text'] for i in infos]}
+    w.nontrivial = True
+    context = SimpleNamespace(mark='ctx-mark')
+    suts = {'sync': S.ServerUnderTest(w, dict(cfg, **{'async': False, 'flavour': 'sync'}), node='srv_sync', context=context)}
+    for flavour in ('async', 'sync'):
+        acfg = dict(cfg, **{'async': True, 'flavour': flavour})
+        suts['async.' + flavour] = S.ServerUnderTest(w, acfg, node='srv_async_' + flavour, context=context)
+    for r, info in enumerate(infos):
+        for j in range(5):
+            tok = f'h{r}_t{j}'
+            w.plan[('method', tok)] = [ch.choice(gen_pauses(), 'pause.d') for _ in range(ch.draw(2, 'pause.n'))]
+        views = {}
+        for name, sut in suts.items():
+            before = len(w.history)
+            outcome = sut.deliver(info['text'])
+            recs = [x for x in w.history[before:] if x['node'] == sut.node_name]
+            view = {'outcome': ('raise', type(outcome[1]).__name__) if outcome[0] == 'raise' else
+                    (('none',) if outcome[1] is None else ('reply', outcome[1][0] if not _is_json(outcome[1][0]) else json.loads(outcome[1][0]), list(outcome[1][1]))),
+                    'executions': sorted((m, json.dumps(a, sort_keys=True)) for m, a in S.executions_of(recs)),
+                    'handler_calls': sorted((x['hid'], x.get('tok') or '', x['code']) for x in recs if x['kind'] == 'eh.call'),
+                    'mw_calls': sorted((x['mw'], x.get('tok') or '') for x in recs if x['kind'] == 'mw.enter')}
+            views[name] = view
+        for name in ('async.async', 'async.sync'):
+            for key in ('outcome', 'executions', 'handler_calls', 'mw_calls'):
+                if not _same(views['sync'][key], views[name][key]):
+                    w.violate(f'C11.server.{key}', f'request {r} on long-lived dispatchers ({name}): {key} '
+                              f'{json.dumps(views[name][key], default=str)[:150]} differs from the synchronous dispatcher '
+                              f'{json.dumps(views["sync"][key], default=str)[:150]}', half='server.history',
+                              against=name, request_index=r)
+                    return
+
+
+def gen_pauses() -> List[float]:
+    from .. import gen
+    return gen.PAUSES
+
+
+def _is_json(text: str) -> bool:
+    try:
+        json.loads(text)
+        return True
+    except ValueError:
+        return False
+
+
+def fam_client_history(w: World) -> None:
+    """Long-lived clients: the same sequence of scripted requests on one sync and one async client."""
+    ch = w.ch
+    n_req = 2 + ch.draw(4, 'history.n')
+    first = CS.draw_scenario(ch, cancel=False, max_tracers=2)
+    first['placement'], first['request_strategy'] = 'client', 'unset'
+    if first['client_strategy'] is None:
+        first['client_strategy'] = CS.draw_strategy(ch)
+    n = first['client_strategy']['backoff']['attempts']
+    scns = [first]
+    for _ in range(n_req - 1):
+        nxt = CS.draw_scenario(ch, cancel=False, max_tracers=2)
+        for key in ('client_strategy', 'strict', 'server_async', 'tracers'):
+            nxt[key] = first[key]
+        nxt['placement'], nxt['request_strategy'] = 'client', 'unset'
+        scns.append(nxt)
+    for scn in scns:
+        scn['script'] = (scn['script'] * 3)[:n + 2]
+        c09.normalise_script(scn)
+    w.scenario = {'requests': scns}
+    w.nontrivial = True
+    stacks = {'S': None, 'A': None}
+    for r, scn in enumerate(scns):
+        views = {}
+        for suffix, is_async in (('S', False), ('A', True)):
+            obs = CS.run_scenario(w, scn, is_async, suffix=suffix, reuse=stacks[suffix], tok_prefix=f'r{r}f')
+            stacks[suffix] = obs.stack
+            views[suffix] = _client_view(w, scn, obs)
+        ctx = {'half': 'client.history', 'kind': scn['kind'], 'via': scn['via'], 'request_index': r}
+        for key in ('sent', 'sleeps', 'outcome', 'outcome_from_attempt', 'trace', 'executions'):
+            if not _same(views['S'].get(key), views['A'].get(key)):
+                w.violate(f'C11.client.{key}', f'request {r} on long-lived clients: async {key} '
+                          f'{json.dumps(views["A"].get(key), default=str)[:160]} differs from sync '
+                          f'{json.dumps(views["S"].get(key), default=str)[:160]}', **ctx)
+                return
+
+
+FAMILIES = {'twin.server': fam_server, 'twin.client': fam_client, 'twin.client.history': fam_client_history,
+            'twin.server.history': fam_server_history}
 PLAN = {
-    'quick': {'twin.server': 40000, 'twin.client': 40000},
-    'thorough': {'twin.server': 60000, 'twin.client': 60000},
+    'quick': {'twin.server': 40000, 'twin.client': 40000, 'twin.client.history': 12000, 'twin.server.history': 12000},
+    'thorough': {'twin.server': 60000, 'twin.client': 60000, 'twin.client.history': 36000, 'twin.server.history': 36000},
 }
 THOROUGH_BUDGET_S = 600
